@@ -105,6 +105,9 @@ FlatSeq(u, xs, d) == IF xs = <<>> THEN <<>>
                      ELSE IF Head(xs) = NoneItem THEN FlatSeq(u, Tail(xs), d)
                      ELSE Flat(u, Head(xs), d) \o FlatSeq(u, Tail(xs), d)
 
+Min2(a, b) == IF a <= b THEN a ELSE b
+\* the remainder after an insertion: its first entry is no deeper than the inserted items
+LowerHead(rest, d) == IF rest = <<>> THEN <<>> ELSE << <<rest[1][1], Min2(rest[1][2], d)>> >> \o Tail(rest)
 RECURSIVE DropGE(_, _)
 DropGE(s, d) == IF s = <<>> THEN <<>> ELSE IF s[1][2] >= d THEN DropGE(Tail(s), d) ELSE s
 ItemsOf(s) == [i \in 1..Len(s) |-> s[i][1]]
@@ -123,10 +126,10 @@ Proc(u, e, lst, fuel) ==
   ELSE LET f == lst[1][1]  d == lst[1][2]  rest == Tail(lst)  r == e[f]
            new == CASE r.k = "none" -> rest
                     [] r.k = "raise" -> DropGE(rest, d)
-                    [] r.k = "insert" -> FlatSeq(u, r.xs, d) \o rest
+                    [] r.k = "insert" -> FlatSeq(u, r.xs, d) \o LowerHead(rest, d)
                     [] r.k = "replace" ->
                          IF EndsWithNextInner(r, rest)
-                         THEN FlatSeq(u, Front(r.xs), d) \o rest
+                         THEN FlatSeq(u, Front(r.xs), d) \o LowerHead(rest, d)
                          ELSE FlatSeq(u, r.xs, d) \o DropGE(rest, d)
            sub == Proc(u, e, new, fuel - 1)
        IN <<<<f>> \o sub[1], sub[2]>>
@@ -235,7 +238,10 @@ ElabWith(cf, r) ==       \* cf: number of errors raised by context analysis / fi
                   /\ IF ~isInsert
                      THEN toU' = pushAll(xs) \o DropQ(q, d) /\ pc' = "unwrap"
                      ELSE IF Fixed
-                     THEN toU' = pushAll(others) \o q /\ pc' = "unwrap"
+                     THEN \* repaired: next_inner stays queued; it is made no deeper than the inserted items (so that a
+                          \* frame found inside them cannot prune it) and never deeper than it was
+                          /\ toU' = pushAll(others) \o (IF q = <<>> THEN <<>> ELSE <<[q[1] EXCEPT !.d = Min2(q[1].d, d)]>> \o Tail(q))
+                          /\ pc' = "unwrap"
                      ELSE IF q = <<>>
                      THEN toU' = toU /\ pc' = "escaped"        \* IndexError: pop from an empty deque (F6)
                      ELSE \* next_inner is popped and pushed again at THIS frame's depth (F7)
